@@ -587,6 +587,337 @@ theorem membership_laws (tbl : List Descriptor) (ci : ClassInfo) (ops : List Op)
   obtain ⟨p, t⟩ := hi u hu
   exact ⟨by rw [← hg]; exact p, t⟩
 
+/-! ## Proof-deepening pass: a refused operation changes nothing — for every admissible table, every operation -/
+
+/-- the value is handed to the members as a whole (the `else` branch of the setter runs) -/
+def takesElse (d : Descriptor) (v : Val) : Bool :=
+  match d.setter with
+  | some (.broadcast s) =>
+    (match s.test with
+     | .isinst ks => !kindIn v.obj.kind ks
+     | .sized => false
+     | .allItems ks => v.obj.kind.isSome && !(v.items.all fun o => kindIn o.kind ks))
+  | _ => false
+
+/-- every object the members are offered is accepted by their own (raysect) setters and passes the group's
+`RenderEngine` guards: then the only exceptions left are the group's own validations -/
+def AcceptableAll (d : Descriptor) (v : Val) : Prop :=
+  (∀ o ∈ v.items, Passes (elemChk d) o) ∧ (takesElse d v = true → Passes (scalarChk d) v.obj)
+
+theorem admissible_broadcast_shape (tbl : List Descriptor) (d : Descriptor) (hadm : d.admissible tbl = true) (s : Setter)
+    (hs : d.setter = some (.broadcast s)) :
+    d.wfBroadcast = true ∨ d.wfSeqOnly = true ∨ d.wfLenOnly = true ∨ d.wfAllSeq = true := by
+  unfold Descriptor.admissible at hadm
+  split at hadm
+  · exact Or.inr (Or.inl hadm)
+  · split at hadm
+    · exact Or.inr (Or.inr (Or.inl hadm))
+    · split at hadm
+      · exact Or.inr (Or.inr (Or.inr hadm))
+      · split at hadm
+        · simp [Descriptor.wfMembers, hs] at hadm
+        · exact Or.inl hadm
+
+/-- **group-level assignment, all four shapes**: if the members accept what they are offered and the assignment still
+raises (wrong length, scalar where only a sequence is allowed, unsized value …), the whole world is untouched -/
+theorem setAttr_rejected_unchanged (tbl : List Descriptor) (d : Descriptor) (hadm : d.admissible tbl = true) (w : World)
+    (v : Val) (hacc : AcceptableAll d v) (he : (setAttr d w v).2 ≠ none) : (setAttr d w v).1 = w := by
+  cases hs : d.setter with
+  | none => simp [setAttr, hs]
+  | some sd =>
+    cases sd with
+    | broadcast s =>
+      have hec : elemChk d = s.elemEngineCheck := by simp [elemChk, hs]
+      have hitems : ∀ o ∈ v.items, Passes s.elemEngineCheck o := by rw [← hec]; exact hacc.1
+      rcases admissible_broadcast_shape tbl d hadm s hs with h | h | h | h
+      · obtain ⟨s', ks, chk, err, hw⟩ := wfBroadcast_unpack d h
+        have : s' = s := by have := hw.setter; rw [hs] at this; injection this with this; injection this with this; exact this.symm
+        subst this
+        rw [hw.run] at he ⊢
+        by_cases hk : kindIn v.obj.kind ks = true
+        · simp only [hk, if_true] at he ⊢
+          exact seqBranch_err_unchanged s' w v hw.lenCheck hitems he
+        · simp only [hk, Bool.false_eq_true, if_false] at he ⊢
+          have hte : takesElse d v = true := by simp [takesElse, hs, hw.test, hk]
+          exact absurd (elseBranch_broadcast_ok s' _ chk err hw.orelse w v (by rw [← hw.scalarChk]; exact hacc.2 hte)).1 he
+      · obtain ⟨s', ks, hc, ht, _, hor⟩ := wfSeqOnly_unpack d h
+        have : s' = s := by have := hc.setter; rw [hs] at this; injection this with this; injection this with this; exact this.symm
+        subst this
+        have hrun : setAttr d w v = if kindIn v.obj.kind ks then seqBranch s' w v else elseBranch s' w v := by
+          simp [setAttr, hs, Setter.run, ht]
+        rw [hrun] at he ⊢
+        by_cases hk : kindIn v.obj.kind ks = true
+        · simp only [hk, if_true] at he ⊢
+          exact seqBranch_err_unchanged s' w v hc.lenCheck hitems he
+        · simp only [hk, Bool.false_eq_true, if_false]
+          simp [elseBranch, hor]
+      · obtain ⟨s', hc, ht⟩ := wfLenOnly_unpack d h
+        have : s' = s := by have := hc.setter; rw [hs] at this; injection this with this; injection this with this; exact this.symm
+        subst this
+        cases hk : v.obj.kind with
+        | none => simp [setAttr, hs, Setter.run, ht, hk]
+        | some k =>
+          have hrun : setAttr d w v = seqBranch s' w v := by simp [setAttr, hs, Setter.run, ht, hk]
+          rw [hrun] at he ⊢
+          exact seqBranch_err_unchanged s' w v hc.lenCheck hitems he
+      · obtain ⟨s', ks, err, hc, ht, _, hor⟩ := wfAllSeq_unpack d h
+        have : s' = s := by have := hc.setter; rw [hs] at this; injection this with this; injection this with this; exact this.symm
+        subst this
+        cases hk : v.obj.kind with
+        | none => simp [setAttr, hs, Setter.run, ht, hk]
+        | some k =>
+          have hrun : setAttr d w v =
+              if v.items.all (fun o => kindIn o.kind ks) then seqBranch s' w v else elseBranch s' w v := by
+            simp [setAttr, hs, Setter.run, ht, hk]
+          rw [hrun] at he ⊢
+          by_cases ha : v.items.all (fun o => kindIn o.kind ks) = true
+          · simp only [ha, if_true] at he ⊢
+            exact seqBranch_err_unchanged s' w v hc.lenCheck hitems he
+          · simp only [ha, Bool.false_eq_true, if_false] at he ⊢
+            have hte : takesElse d v = true := by simp [takesElse, hs, ht, hk, ha]
+            exact absurd (elseBranch_broadcast_ok s' _ false err hor w v ⟨(hacc.2 hte).1, by simp⟩).1 he
+    | _ => simp [setAttr, hs]
+
+/-- a member-list setter that checks every element before adopting any either succeeds or leaves the world untouched -/
+theorem memberSetter_rejected_unchanged (m : MemberSetter) (ha : m.atomic = true) (ci : ClassInfo) (w : World)
+    (k : Option SeqKind) (us : List Nat) (he : (m.run ci w k us).2 ≠ none) : (m.run ci w k us).1 = w := by
+  unfold MemberSetter.run at he ⊢
+  by_cases hk : kindIn k m.kinds = true
+  · by_cases hall : us.all (typeOk w.heap ci.accepted) = true
+    · simp [hk, ha, hall] at he
+    · simp [hk, ha, hall]
+  · simp [hk]
+
+theorem admissible_members_atomic (tbl : List Descriptor) (d : Descriptor) (hadm : d.admissible tbl = true) (m : MemberSetter)
+    (hs : d.setter = some (.members m)) : m.atomic = true := by
+  unfold Descriptor.admissible at hadm
+  split at hadm
+  · simp [Descriptor.wfSeqOnly, hs] at hadm
+  · split at hadm
+    · simp [Descriptor.wfLenOnly, hs] at hadm
+    · split at hadm
+      · simp [Descriptor.wfAllSeq, hs] at hadm
+      · split at hadm
+        · simp only [Descriptor.wfMembers, hs, Bool.and_eq_true] at hadm
+          exact hadm.2.2
+        · simp [Descriptor.wfBroadcast, hs] at hadm
+
+/-- **member-list assignment** (`observers`, `sight_lines` through its alias, `foil_detectors`): refused ⇒ untouched —
+membership, every parent, every attribute -/
+theorem setMembers_rejected_unchanged (tbl : List Descriptor) (hall : ∀ d ∈ tbl, d.admissible tbl = true) (ci : ClassInfo)
+    (d : Descriptor) (hd : d ∈ tbl) (w : World) (k : Option SeqKind) (us : List Nat)
+    (he : (setMembers tbl ci d w k us).2 ≠ none) : (setMembers tbl ci d w k us).1 = w := by
+  unfold setMembers at he ⊢
+  cases hs : d.setter with
+  | none => rfl
+  | some sd =>
+    cases sd with
+    | members m =>
+      simp only [hs] at he ⊢
+      exact memberSetter_rejected_unchanged m (admissible_members_atomic tbl d (hall d hd) m hs) ci w k us he
+    | «alias» f t target =>
+      simp only [hs] at he ⊢
+      cases hf : findDesc tbl d.cls target with
+      | none => rfl
+      | some d' =>
+        simp only [hf] at he ⊢
+        cases hs' : d'.setter with
+        | none => rfl
+        | some sd' =>
+          cases sd' with
+          | members m' =>
+            simp only [hs'] at he ⊢
+            exact memberSetter_rejected_unchanged m' (admissible_members_atomic tbl d' (hall d' (findDesc_mem hf).1) m' hs') ci w k us he
+          | _ => rfl
+    | _ => rfl
+
+/-- the values of an operation are acceptable to the members (only assignments carry values) -/
+def OpAcceptable (tbl : List Descriptor) (ci : ClassInfo) : Op → Prop
+  | .assign name v => ∀ d, findDesc tbl ci.name name = some d → AcceptableAll d v
+  | _ => True
+
+/-- **state-machine form**: for every table all of whose descriptors are admissible, every class, every world and every
+operation of the group API (add, assignment, member-list assignment, rename): if the operation raises, the world —
+membership, every observer's parent, every attribute of every object on the heap — is exactly what it was -/
+theorem step_rejected_unchanged (tbl : List Descriptor) (hall : ∀ d ∈ tbl, d.admissible tbl = true) (ci : ClassInfo)
+    (w : World) (op : Op) (hacc : OpAcceptable tbl ci op) (he : (step tbl ci w op).2 ≠ none) :
+    (step tbl ci w op).1 = w := by
+  cases op with
+  | add u =>
+    simp only [step, addObserver] at he ⊢
+    split
+    · rename_i ht; simp [ht] at he
+    · rfl
+  | assign name v =>
+    simp only [step] at he ⊢
+    cases hf : findDesc tbl ci.name name with
+    | none => rfl
+    | some d =>
+      simp only [hf] at he ⊢
+      exact setAttr_rejected_unchanged tbl d (hall d (findDesc_mem hf).1) w v (hacc d hf) he
+  | setMembers name k us =>
+    simp only [step] at he ⊢
+    cases hf : findDesc tbl ci.name name with
+    | none => rfl
+    | some d =>
+      simp only [hf] at he ⊢
+      exact setMembers_rejected_unchanged tbl hall ci d (findDesc_mem hf).1 w k us he
+  | poke u a x => simp [step] at he
+
+/-- hence a refused operation can be deleted from any history without changing where the history ends -/
+theorem run_skip_rejected (tbl : List Descriptor) (hall : ∀ d ∈ tbl, d.admissible tbl = true) (ci : ClassInfo)
+    (w : World) (op : Op) (ops : List Op) (hacc : OpAcceptable tbl ci op) (he : (step tbl ci w op).2 ≠ none) :
+    run tbl ci w (op :: ops) = run tbl ci w ops := by
+  simp only [run]
+  rw [step_rejected_unchanged tbl hall ci w op hacc he]
+
+/-- the acceptability hypothesis cannot be dropped: a `RenderEngine` guard that sits *inside* the zip loop (render_engine,
+as the source is) lets the elements in front of the offending one through before it raises -/
+theorem engine_guard_in_loop_partial (a : Attr) (e : Err) (u u' : Nat) (us : List Nat) (o o' : Obj) (os : List Obj) (h : Heap)
+    (ho : o.rej = none) (hoe : o.engine = true) (ho' : o'.engine = false) :
+    (assignZip a true e (u :: u' :: us) (o :: o' :: os) h).2 = some e ∧
+    (((assignZip a true e (u :: u' :: us) (o :: o' :: os) h).1) u).attrs a = o.stored := by
+  rw [assignZip_cons a true e u (u' :: us) o (o' :: os) h ⟨ho, fun _ => hoe⟩]
+  simp [assignZip, ho']
+
+/-! ## Proof-deepening pass: several groups over one scene graph -/
+
+/-- several groups over one heap: `focus` is the group being operated on, `others` are (node id, members) of the rest -/
+structure Scene where
+  focus : World
+  others : List (Nat × List Nat)
+
+/-- every member of every group has that group as scene-graph parent (and the focus group's members are of its type) -/
+def Scene.Inv (ci : ClassInfo) (s : Scene) : Prop :=
+  Cherab.Groups.Inv ci s.focus ∧ ∀ g ∈ s.others, g.1 ≠ s.focus.gid ∧ ∀ u ∈ g.2, (s.focus.heap u).parent = some g.1
+
+def Scene.step (tbl : List Descriptor) (ci : ClassInfo) (s : Scene) (op : Op) : Scene :=
+  { s with focus := (Cherab.Groups.step tbl ci s.focus op).1 }
+
+/-- the observers an operation tries to adopt -/
+def adoptees : Op → List Nat
+  | .add u => [u]
+  | .setMembers _ _ us => us
+  | _ => []
+
+/-- under the invariant no observer is a member of two groups -/
+theorem scene_members_disjoint (ci : ClassInfo) (s : Scene) (hi : s.Inv ci) :
+    (∀ g ∈ s.others, ∀ u ∈ g.2, u ∉ s.focus.members) ∧
+    (∀ g ∈ s.others, ∀ g' ∈ s.others, g.1 ≠ g'.1 → ∀ u ∈ g.2, u ∉ g'.2) := by
+  constructor
+  · intro g hg u hu hm
+    have h1 := (hi.2 g hg).2 u hu
+    have h2 := (hi.1 u hm).1
+    rw [h1] at h2
+    exact (hi.2 g hg).1 (Option.some.inj h2)
+  · intro g hg g' hg' hne u hu hu'
+    have h1 := (hi.2 g hg).2 u hu
+    have h2 := (hi.2 g' hg').2 u hu'
+    rw [h1] at h2
+    exact hne (Option.some.inj h2)
+
+theorem memberSetter_parent_frame (m : MemberSetter) (ha : m.atomic = true) (ci : ClassInfo) (w : World)
+    (k : Option SeqKind) (us : List Nat) (x : Nat) (hx : x ∉ us) :
+    ((m.run ci w k us).1.heap x).parent = (w.heap x).parent := by
+  unfold MemberSetter.run
+  by_cases hk : kindIn k m.kinds = true
+  · by_cases hall : us.all (typeOk w.heap ci.accepted) = true
+    · simp only [hk, ha, hall, Bool.not_true, Bool.false_eq_true, if_false, if_true]
+      exact (reparentAll_spec w.gid us w.heap).2.1 x hx
+    · simp [hk, ha, hall]
+  · simp [hk]
+
+/-- through an admissible table, an operation changes the parent of nobody but the observers it adopts -/
+theorem step_parent_frame (tbl : List Descriptor) (hall : ∀ d ∈ tbl, d.admissible tbl = true) (ci : ClassInfo) (w : World)
+    (op : Op) (x : Nat) (hx : x ∉ adoptees op) :
+    ((Cherab.Groups.step tbl ci w op).1.heap x).parent = (w.heap x).parent := by
+  cases op with
+  | add u =>
+    have hxu : x ≠ u := by simpa [adoptees] using hx
+    simp only [Cherab.Groups.step, addObserver]
+    split
+    · exact setParent_parent_other _ _ _ _ hxu
+    · rfl
+  | assign name v =>
+    simp only [Cherab.Groups.step]
+    cases hf : findDesc tbl ci.name name with
+    | none => rfl
+    | some d =>
+      simp only [setAttr]
+      cases hs : d.setter with
+      | none => rfl
+      | some sd =>
+        cases sd with
+        | broadcast s =>
+          obtain ⟨_, _, a, f⟩ := Setter.run_frame s w v
+          exact (f.2 x).1
+        | _ => rfl
+  | setMembers name k us =>
+    have hxu : x ∉ us := by simpa [adoptees] using hx
+    simp only [Cherab.Groups.step]
+    cases hf : findDesc tbl ci.name name with
+    | none => rfl
+    | some d =>
+      simp only [setMembers]
+      cases hs : d.setter with
+      | none => rfl
+      | some sd =>
+        cases sd with
+        | members m =>
+          exact memberSetter_parent_frame m (admissible_members_atomic tbl d (hall d (findDesc_mem hf).1) m hs) ci w k us x hxu
+        | «alias» f t target =>
+          simp only
+          cases hf' : findDesc tbl d.cls target with
+          | none => rfl
+          | some d' =>
+            simp only
+            cases hs' : d'.setter with
+            | none => rfl
+            | some sd' =>
+              cases sd' with
+              | members m' =>
+                exact memberSetter_parent_frame m' (admissible_members_atomic tbl d' (hall d' (findDesc_mem hf').1) m' hs') ci w k us x hxu
+              | _ => rfl
+        | _ => rfl
+  | poke u a v => simp [Cherab.Groups.step]
+
+/-- **parent invariant over the whole scene, all histories**: every operation on one group — accepted or refused, through
+any admissible table — keeps "every member of every group has that group as parent" (hence no observer in two groups),
+provided the observers it adopts are not members of another group -/
+theorem scene_inv_step (tbl : List Descriptor) (hall : ∀ d ∈ tbl, d.admissible tbl = true) (ci : ClassInfo) (s : Scene)
+    (op : Op) (hi : s.Inv ci) (hforeign : ∀ u ∈ adoptees op, ∀ g ∈ s.others, u ∉ g.2) :
+    (s.step tbl ci op).Inv ci := by
+  obtain ⟨h1, h2⟩ := inv_step tbl ci s.focus op hi.1
+  refine ⟨h1, ?_⟩
+  intro g hg
+  refine ⟨by show g.1 ≠ (Cherab.Groups.step tbl ci s.focus op).1.gid; rw [h2]; exact (hi.2 g hg).1, ?_⟩
+  intro u hu
+  show ((Cherab.Groups.step tbl ci s.focus op).1.heap u).parent = some g.1
+  rw [step_parent_frame tbl hall ci s.focus op u (fun hm => hforeign u hm g hg hu)]
+  exact (hi.2 g hg).2 u hu
+
+theorem scene_inv_run (tbl : List Descriptor) (hall : ∀ d ∈ tbl, d.admissible tbl = true) (ci : ClassInfo) (ops : List Op)
+    (s : Scene) (hi : s.Inv ci) (hforeign : ∀ op ∈ ops, ∀ u ∈ adoptees op, ∀ g ∈ s.others, u ∉ g.2) :
+    (ops.foldl (fun s op => s.step tbl ci op) s).Inv ci := by
+  induction ops generalizing s with
+  | nil => exact hi
+  | cons op ops ih =>
+    simp only [List.foldl_cons]
+    exact ih (s.step tbl ci op) (scene_inv_step tbl hall ci s op hi (hforeign op List.mem_cons_self))
+      (fun op' h' => hforeign op' (List.mem_cons_of_mem _ h'))
+
+/-- the proviso is necessary — **the code as it is lets one group take a member away from another**: `add_observer` of an
+observer that is a member of another group is accepted, re-parents it, and leaves it in the other group's member tuple -/
+theorem cross_group_add_steals (tbl : List Descriptor) (ci : ClassInfo) (s : Scene) (g : Nat × List Nat) (hg : g ∈ s.others)
+    (u : Nat) (hu : u ∈ g.2) (ht : typeOk s.focus.heap ci.accepted u = true) (hne : g.1 ≠ s.focus.gid) :
+    (Cherab.Groups.step tbl ci s.focus (.add u)).2 = none ∧ ¬ (s.step tbl ci (.add u)).Inv ci := by
+  constructor
+  · simp [Cherab.Groups.step, addObserver, ht]
+  · intro hi
+    have h := (hi.2 g hg).2 u hu
+    simp only [Scene.step, Cherab.Groups.step, addObserver, ht, if_true, setParent_parent_same] at h
+    exact hne (Option.some.inj h).symm
+
 /-! ## Non-vacuity: the hypotheses are satisfiable by concrete, non-trivial instances -/
 
 section Examples
@@ -652,6 +983,55 @@ example : getItem exClass exWorld (.slice (some 1) (some 3) none) = .objs [2, 3]
     getItem exClass exWorld (.str 2) = .objs [2] ∧ getItem exClass exWorld (.int 3) = .err .indexError := by decide
 example : getItem { exClass with family := .bolometer } exWorld (.slice (some 0) (some 2) none) = .objs [1, 2] ∧
     getItem { exClass with family := .bolometer, sliceKeys := false } exWorld (.slice (some 0) (some 2) none) = .err .typeError := by
+  decide
+
+/-- deepening pass: a refused assignment / member-list assignment / add through an admissible table leaves the world as it was -/
+def exTable : List Descriptor :=
+  [exBins, exNames,
+   { cls := "Observer0DGroup", name := "observers", definedIn := "Observer0DGroup", getterFn := "observers", getter := .memberList,
+     setter := some (.members { fnName := "observers", decTarget := "observers", kinds := [.list, .tuple], kindErr := .typeError, elemErr := .valueError, atomic := true }) }]
+
+example : ∀ d ∈ exTable, d.admissible exTable = true := by decide
+example : OpAcceptable exTable exClass (.assign "spectral_bins" exShort) := by
+  intro d hd
+  have : d = exBins := by
+    have h : findDesc exTable exClass.name "spectral_bins" = some exBins := by decide
+    rw [h] at hd; exact (Option.some.inj hd).symm
+  subst this
+  refine ⟨?_, ?_⟩
+  · intro o ho
+    have : o = { stored := 4 } := by simpa [exShort] using ho
+    subst this
+    exact ⟨rfl, by decide⟩
+  · intro h
+    exact absurd h (by decide)
+example : (step exTable exClass exWorld (.assign "spectral_bins" exShort)).2 = some .valueError := by decide
+/-- a wrong-typed object (id 77: types do not contain "Observer0D") in the middle of a member list, and as argument of add -/
+def exWorld2 : World :=
+  ⟨100, fun u => { attrs := fun _ => u, parent := if u = 77 then none else some 100,
+                   types := if u = 77 then ["Sphere"] else ["SightLine", "Observer0D"] }, [1, 2, 3]⟩
+example : (step exTable exClass exWorld2 (.setMembers "observers" (some .list) [1, 77, 2])).2 = some .valueError ∧
+    (step exTable exClass exWorld2 (.add 77)).2 = some .valueError := by decide
+/-- scene: group 200 (empty, focus) next to group 100 = [1, 2, 3]; adopting the free observer 9 keeps the invariant,
+adopting observer 1 (a member of group 100) is accepted by the code and breaks it -/
+def exScene : Scene :=
+  ⟨⟨200, fun u => { attrs := fun _ => u, parent := if u = 9 then none else some 100, types := ["SightLine", "Observer0D"] }, []⟩,
+   [(100, [1, 2, 3])]⟩
+example : exScene.Inv exClass := by
+  refine ⟨fun u hu => by simp [exScene] at hu, ?_⟩
+  intro g hg
+  simp only [exScene, List.mem_singleton] at hg
+  subst hg
+  refine ⟨by decide, ?_⟩
+  intro u hu
+  have : u = 1 ∨ u = 2 ∨ u = 3 := by simpa using hu
+  rcases this with rfl | rfl | rfl <;> rfl
+example : ∀ u ∈ adoptees (.add 9), ∀ g ∈ exScene.others, u ∉ g.2 := by decide
+example : (Cherab.Groups.step exTable exClass exScene.focus (.add 1)).2 = none ∧
+    ((exScene.step exTable exClass (.add 1)).focus.heap 1).parent = some 200 := by decide
+/-- the `RenderEngine` guard inside the loop: first member already changed when the second element is refused -/
+example : (assignZip "render_engine" true .typeError [1, 2] [{ stored := 8, engine := true }, { stored := 9 }] exWorld.heap).2 = some .typeError ∧
+    (((assignZip "render_engine" true .typeError [1, 2] [{ stored := 8, engine := true }, { stored := 9 }] exWorld.heap).1) 1).attrs "render_engine" = 8 := by
   decide
 
 end Examples
